@@ -869,6 +869,19 @@ struct RealRunner
             }
         }
         double const gap = s.step - acc;  // > 0: the reported full step exceeds the path travelled
+        // last iteration: update_length = s * d / c as the recorded responses give it, and the
+        // curved distance between the end of that substep (where the committed momentum was
+        // evaluated) and the point update_length along it
+        double last_d = 0;
+        for (auto it = rec.calls.rbegin(); it != rec.calls.rend(); ++it)
+            if (it->kind == "Find")
+            {
+                last_d = it->b;
+                break;
+            }
+        double const ul_last = (last_b && cur_c > 0) ? cur_s * last_d / cur_c : 0;
+        double const mgap = last_b ? std::fabs(cur_s - ul_last) : 0;
+        double const mgaptol = std::max(minsub, 2 * dint * last_ratio) * (1 + 1e-9);
         double const tolgap = std::max(minsub, dint * last_ratio) * (1 + 1e-9);
         double const softtol = 1e-12 * s.step;  // soft_equal(distance, step) of the code's own assertion
 
@@ -896,8 +909,10 @@ struct RealRunner
         for (double m : rec.mommag)
             pdrift = std::max(pdrift, std::fabs(m - p0) / p0);
         // every accepted integration step may be off by epsilon_rel_max (relative): a-priori bound
+        // (the truncation-error ESTIMATE is bounded by epsilon_rel_max, not the error itself: one
+        // order of magnitude of slack, part of the trusted base)
         double const eps_n = s.opts.epsilon_rel_max * static_cast<double>(std::max<long>(1, nstep));
-        double const pdrift_tol = s.stepper == 2 ? 1e-9 : std::max(1e-9, eps_n);
+        double const pdrift_tol = s.stepper == 2 ? 1e-9 : std::max(1e-9, 10 * eps_n);
 
         // ORACLE-DECIDED: analytic helix in a uniform field (closed form above)
         bool const uniform = s.field.type != 2;
@@ -940,6 +955,8 @@ struct RealRunner
         auto add = [&](double v) { rk.add(std::isfinite(v) ? v : 1e300); };
         auto R = [&](double v) { return rk(std::isfinite(v) ? v : 1e300); };
         double const steplo = s.step * (1 - 1e-12), stephi = s.step * (1 + 1e-12);
+        for (double v : {ul_last, mgap, mgaptol})
+            add(v);
         for (double v : {0.0, s.step, steplo, stephi, result.distance, minsub, dint, bump, gap, tolgap, softtol,
                          unit_res, 1e-12, pdrift, pdrift_tol, hres, htol, ares, atol, p0, p1})
             add(v);
@@ -968,7 +985,9 @@ struct RealRunner
         r["calls"] = calls;
         r["k"] = {{"zero", R(0.0)}, {"step", R(s.step)}, {"steplo", R(steplo)}, {"stephi", R(stephi)},
                   {"minsub", R(minsub)}, {"delta", R(dint)}, {"bump", R(bump)}, {"gap", R(gap)},
-                  {"tolgap", R(tolgap)}, {"softtol", R(softtol)}, {"p0", R(p0)}, {"p1", R(p1)}};
+                  {"tolgap", R(tolgap)}, {"softtol", R(softtol)}, {"p0", R(p0)}, {"p1", R(p1)},
+                  {"ul", R(ul_last)}, {"mgap", R(mgap)}, {"mgaptol", R(mgaptol)}};
+        r["lastb"] = last_b;
         r["res"] = {{"dist", R(result.distance)}, {"bnd", result.boundary}, {"loop", result.looping}};
         r["onb0"] = onb0;
         r["onb1"] = onb1;
@@ -986,7 +1005,10 @@ struct RealRunner
         r["stepper"] = s.stepper == 0 ? "dp" : (s.stepper == 1 ? "rk4" : "zhelix");
         r["field"] = s.field.type == 0 ? "uniform" : (s.field.type == 1 ? "uniformz" : "rzmap");
         out(r);
-        return !out1;
+        // a zero-progress bump moves the point without telling the navigator: do not continue a
+        // sequence from such a state (the follow-on calls would start from an unverified volume)
+        bool const bumped = !result.boundary && !result.looping && result.distance < s.step;
+        return !out1 && !bumped;
     }
 };
 
@@ -1013,6 +1035,7 @@ int run_real(std::string const& out_path, int argc, char** argv)
           "test/orange/data/rect-array.org.json,test/orange/data/nested-rect-arrays.org.json,"
           "test/orange/data/testem3.org.json,test/orange/data/inputbuilder-hierarchy.org.json";
     long budget = 200000;
+    bool directed = true;
     for (int i = 3; i < argc; ++i)
     {
         std::string a = argv[i];
@@ -1030,6 +1053,8 @@ int run_real(std::string const& out_path, int argc, char** argv)
             geolist = v;
         else if (k == "budget")
             budget = std::stol(v);
+        else if (k == "directed")
+            directed = v != "0";
     }
     verif::NdjsonWriter out(out_path);
     g_out = &out;
@@ -1065,6 +1090,71 @@ int run_real(std::string const& out_path, int argc, char** argv)
     catch (std::exception const& ex)
     {
         out({{"e", "Info"}, {"what", std::string("no rz map: ") + clean(ex.what())}});
+    }
+
+    // ---- directed cases (hand-written inputs; the clauses decide, nothing is expected here)
+    if (directed)
+    {
+        int tb = -1;
+        for (std::size_t i = 0; i < rr.geos.size(); ++i)
+            if (rr.geos[i]->name.find("two-boxes") != std::string::npos)
+                tb = static_cast<int>(i);
+        if (tb >= 0)
+        {
+            struct D
+            {
+                Real3 pos, dir;
+                bool positron;
+                double energy, bz, step;
+                int stepper;
+                char const* tag;
+            };
+            // two-boxes: inner box [-5,5]^3 inside a big world box.  10 MeV e-/e+ in 3.50194611 T:
+            // gyroradius 1 cm (the unit test's configuration)
+            double const B1 = 3.5019461121752274;
+            std::vector<D> ds = {
+                {{1, 0, 0}, {0, 1, 0}, false, 10.0, B1, 0.5 * M_PI, 0, "quarter-turn"},
+                {{1, 0, 0}, {0, -1, 0}, true, 10.0, B1, 0.5 * M_PI, 1, "quarter-turn-rk4"},
+                {{1, 0, 0}, {0, 1, 0}, false, 10.0, B1, 0.5 * M_PI, 2, "quarter-turn-zhelix-centred"},
+                {{3, 1, 0}, {0, 1, 0}, false, 10.0, B1, 0.25, 2, "zhelix-off-centre"},
+                {{3, 1, 0}, {0.6, 0, 0.8}, true, 10.0, B1, 0.25, 2, "zhelix-off-centre-pitch"},
+                // a wall 5e-7 cm ahead (less than minimum_step), normal incidence, not on it
+                {{5 - 5e-7, 0, 0}, {1, 0, 0}, false, 10.0, B1, 1.0, 0, "wall-within-minstep"},
+                {{5 - 5e-7, 0, 0}, {1, 0, 0}, true, 10.0, B1, 1.0, 1, "wall-within-minstep-rk4"},
+                {{5 - 9e-7, 1, 2}, {0.8, 0.6, 0}, false, 1.0, 1.0, 10.0, 0, "wall-within-minstep-oblique"},
+                // the same wall 1e-4 cm ahead (well above minimum_step)
+                {{5 - 1e-4, 0, 0}, {1, 0, 0}, false, 10.0, B1, 1.0, 0, "wall-1e-4-ahead"},
+                // grazing the wall from inside
+                {{4, 0, 0}, {0, 1, 0}, true, 10.0, B1, 3.0, 0, "graze-from-inside"},
+                {{4.0000001, 0, 0}, {0, 1, 0}, true, 10.0, B1, 3.0, 0, "graze-just-touching"},
+                // tiny requested steps
+                {{0, 0, 0}, {0, 0, 1}, false, 1.0, 1.0, 1e-10, 0, "step-below-minstep"},
+                {{0, 0, 0}, {1, 0, 0}, false, 1.0, 1.0, 1e-6, 0, "step-at-minstep"},
+                // a step that ends within minimum_step of a multiple of the driver's chord-limited substep
+                {{0, 0, 0}, {1, 0, 0}, false, 0.06, 10.0, 0.04, 0, "tiny-radius-short-step"},
+            };
+            for (auto const& d : ds)
+            {
+                Sample s;
+                s.geo = tb;
+                s.positron = d.positron;
+                s.energy = d.energy;
+                s.field.type = 1;
+                s.field.b_tesla = {0, 0, d.bz};
+                s.stepper = d.stepper;
+                s.step = d.step;
+                s.tag = std::string("directed:") + d.tag;
+                try
+                {
+                    *rr.geos[tb]->view = GeoTrackInitializer{d.pos, unit3(d.dir)};
+                    rr.propagate_once(s, "interior");
+                }
+                catch (std::exception const& ex)
+                {
+                    out({{"e", "Info"}, {"what", std::string("directed case failed to start: ") + clean(ex.what())}});
+                }
+            }
+        }
     }
 
     Rng rng(seed);
@@ -1153,6 +1243,19 @@ int run_real(std::string const& out_path, int argc, char** argv)
                     t = unit3(t);
                     double eps = (rng.i(2) ? 1 : -1) * rng.logu(1e-9, 1e-2);
                     Real3 nd = unit3(Real3{t[0] + eps * nrm[0], t[1] + eps * nrm[1], t[2] + eps * nrm[2]});
+                    // the track has just crossed INTO its volume: the direction must not lead back
+                    // through the surface (a re-entrant state answers find_next_step with {0, true})
+                    bool okdir = false;
+                    for (int attempt = 0; attempt < 2 && !okdir; ++attempt)
+                    {
+                        geo.set_dir(nd);
+                        auto probe = geo.find_next_step();
+                        okdir = !(probe.boundary && probe.distance == 0);
+                        if (!okdir)
+                            nd = unit3(Real3{t[0] - eps * nrm[0], t[1] - eps * nrm[1], t[2] - eps * nrm[2]});
+                    }
+                    if (!okdir)
+                        continue;
                     geo.set_dir(nd);
                     kind = "tangent";
                 }
